@@ -510,7 +510,7 @@ func famStartup(r *Rand) *seqScenario {
 	b := newScb("startup", 0, r)
 	b.boot(0)
 	b.grow(0, 1+r.Intn(3))
-	switch r.Intn(5) {
+	switch r.Intn(7) {
 	case 0:
 		b.cmd(seqCmd{Op: "crash", Inst: 0})
 		b.cmd(seqCmd{Op: "config", Inst: 0, Mut: "name", Name: "other.example/log"})
@@ -527,6 +527,14 @@ func famStartup(r *Rand) *seqScenario {
 		b.cmd(seqCmd{Op: "create", Inst: 1})
 		b.cmd(seqCmd{Op: "run", Inst: 1})
 		b.cmd(seqCmd{Op: "crash", Inst: 0})
+	case 5, 6:
+		// creation attempted again over the existing log (a restart on the inception day) while one of its
+		// existence checks fails transiently
+		b.submitN(0, 1+r.Intn(2), false)
+		b.roundOK(0)
+		b.cmd(seqCmd{Op: "crash", Inst: 0})
+		b.cmd(seqCmd{Op: "create", Inst: 0})
+		b.cmd(seqCmd{Op: "run", Inst: 0, Faults: map[string]string{fmt.Sprint(r.Intn(3)): []string{"errN", "errA"}[r.Intn(2)]}})
 	case 4:
 		b.cmd(seqCmd{Op: "crash", Inst: 0})
 		b.cmd(seqCmd{Op: "clock", V: -100000})
@@ -539,6 +547,29 @@ func famStartup(r *Rand) *seqScenario {
 	b.cmd(seqCmd{Op: "run", Inst: 0})
 	b.submitN(0, 1, false)
 	b.roundOK(0)
+	return b.sc
+}
+
+// famStaleLock: the lock store is older than object storage (a restored backup, a stale replica): a start must be
+// refused when the published checkpoint is ahead; whatever starts must never commit a tree that is not an extension
+// of everything committed before. Oracle-only.
+func famStaleLock(r *Rand) *seqScenario {
+	b := newScb("stalelock", 0, r)
+	b.boot(0)
+	b.grow(0, []int{0, 1, 2, 255}[r.Intn(4)])
+	for k := 2 + r.Intn(3); k > 0; k-- {
+		b.submitN(0, r.Intn(3), false) // also empty rounds: the lock changes, the size does not
+		b.roundOK(0)
+	}
+	b.cmd(seqCmd{Op: "crash", Inst: 0})
+	b.cmd(seqCmd{Op: "lockrollback", V: int64(r.Intn(3))})
+	b.cmd(seqCmd{Op: "clock", V: 50})
+	b.cmd(seqCmd{Op: "start", Inst: 0})
+	b.cmd(seqCmd{Op: "run", Inst: 0})
+	for k := 0; k < 2; k++ {
+		b.submitN(0, 1+r.Intn(2), false)
+		b.roundOK(0)
+	}
 	return b.sc
 }
 
@@ -645,11 +676,11 @@ func genScenarios(o *Opts, r *Rand) []*seqScenario {
 	}
 	fam := func(names ...string) bool {
 		want := map[string][]string{
-			"C01": {"basic", "fault", "clock", "crash", "runseq"},
+			"C01": {"basic", "fault", "clock", "crash", "runseq", "startup"},
 			"C02": {"basic", "fault", "dup", "crash", "pool", "bigpool"},
 			"C03": {"crash", "fault"},
 			"C04": {"basic", "fault", "crash", "issuerrace"},
-			"C06": {"multi", "startup", "runseq"},
+			"C06": {"multi", "startup", "runseq", "stalelock"},
 			"C07": {"dup", "pool", "issuerrace", "bigpool", "legacy"},
 			"C08": {"tamper"},
 			"C17": {"pool", "fault", "runseq"},
@@ -732,8 +763,13 @@ func genScenarios(o *Opts, r *Rand) []*seqScenario {
 		}
 	}
 	if fam("startup") {
-		for i := 0; i < 10*mul; i++ {
+		for i := 0; i < 14*mul; i++ {
 			add(famStartup(r.Fork()))
+		}
+	}
+	if fam("stalelock") {
+		for i := 0; i < 12*mul; i++ {
+			add(famStaleLock(r.Fork()))
 		}
 	}
 	if fam("dup") {
